@@ -55,6 +55,17 @@ CLAIMED["C03"] = ("model_checking",
     "Trusted: MQTTCodec.tla as reference for packets and endings; TLC. Loopback TCP segmentation is best effort. Long streams are sampled, not enumerated.",
     "DESIGN.md section 5 C03")
 
+CLAIMED["C19"] = ("model_checking",
+    "TLA+ specification Conn.tla of BaseConn + packet.Encoder + mercury.Writer (send mutex, writer mutex, one-shot and sticky write errors, flush timer incl. missed Stop, closer, receiver, failing carrier) "
+    "checked exhaustively by TLC (safety + liveness under fairness, deviations for non-vacuity) and bound to the code by trace validation of the real BaseConn over a scripted carrier (ConnTrace.tla)",
+    "Design: WireWhole, SenderOrder, NoDuplicates, CloseFlushesAccepted, FlushedIsOnWire, FlushedSendFailsAfterClose, BufferedSendFailsAfterFailedFlush, ErrorClosesCarrier, TimerCoversBuffer, "
+    "EveryCallReturns, EventuallyFlushed, ReceiveUnblocked on all interleavings of the bounded configurations; 4 deviations must violate them; the relaxed model without sendMutex is shown to keep "
+    "every property. Code: 1-16 sender goroutines, closer and receiver goroutines, flush delays 0-200 ms, carrier failures at the k-th write/read/close/deadline call, timeouts, EOF, blocked writes; "
+    "every carrier write must be the next bytes of the model's stream, every send result the model's, the carrier closed on every error path, every call returned.",
+    "Trusted: TLC; the model of mercury v0.2.0/bufio read from their source; the scripted carrier (TCP-like close semantics). TCP and WebSocket carriers are covered for framing by C03's replay, "
+    "for concurrency only through BaseConn which they embed. Traces rejected only by the strict mutex discipline but accepted by the property-preserving relaxed model are not reported.",
+    "DESIGN.md section 5 C19")
+
 BROKER_TECH = ("TLA+ specification Broker.tla (event-granular, one action per critical section of broker/client.go and MemoryBackend) bound to the real broker by trace "
                "validation: scripted MQTT peers over harness-owned links, Backend wrapper, session-store hooks; every recorded trace checked by TLC (BrokerTrace.tla) incl. settlement")
 BROKER_NOTE = ("Trusted: TLC; the ordering argument of the harness (sends logged before, receives after, link queue + log entry atomic; store hooks under the store's lock); "
